@@ -369,7 +369,9 @@ def gen_returns(rng, mode="short"):
 
 def gen_pomdp_run(rng, tier, probe=False):
     cap = rng.choice([0, 1, 2, 5, "large", 3, 8])
-    kind = rng.choice(["table", "sfsc", "fsc", "fsc"])
+    kind = rng.choice(["table", "sfsc", "fsc", "fsc", "belief", "belief"])
+    if kind == "belief" and cap in ("large", 8):
+        cap = 5
     if kind == "sfsc" and cap == "large":
         cap = 8
     m = gen_mdp_for(rng, tier, cap, uniform_actions=True)
@@ -395,7 +397,22 @@ def gen_pomdp_run(rng, tier, probe=False):
             if others and rng.random() < .3:
                 d["items"].insert(rng.randint(0, len(d["items"])), [rng.choice(others), "0"])
     nN = rng.randint(1, 3)
-    if kind == "fsc":
+    if kind == "belief":
+        # value-based policies (agent state = Belief): a myopic ValueBasedTabularPOMDPPolicy subclass or msdm AlphaVectorPolicy;
+        # initial_agentstate: not given / the model prior passed explicitly / a belief with FULL support (so every state,
+        # also one of initial probability 0, is believed possible and the belief update stays defined along any run)
+        variant = rng.choice(["myopic", "alpha"])
+        ctrl = {"kind": "belief", "variant": variant}
+        if variant == "alpha":
+            ctrl["alpha"] = [[str(F(rng.randint(-8, 8), 2)) for _ in range(n)] for _ in range(rng.randint(1, 3))]
+        r = rng.random()
+        if r < .25:
+            ag0 = None
+        elif r < .4:
+            ag0 = "prior"
+        else:
+            ag0 = [str(p) for p in split(rng, n, 8 if n <= 8 else 16)]
+    elif kind == "fsc":
         # msdm FiniteStateController: one action per node, next node by pure table lookup (2-d: node x obs,
         # 3-d: node x action x obs); for the model it is a table controller with point-mass action distributions
         dim = rng.choice([2, 3])
@@ -426,7 +443,7 @@ def gen_pomdp_run(rng, tier, probe=False):
         ctrl = {"kind": "sfsc", "init": vec(nN), "A": [vec(nA) for _ in range(nN)],
                 "O": [[[vec(nN) for _ in range(nO)] for _ in range(nA)] for _ in range(nN)]}
         ag0 = None if rng.random() < .6 else vec(nN)
-    s0 = None if rng.random() < .6 else rng.randrange(n)
+    s0 = None if rng.random() < (.8 if kind == "belief" else .6) else rng.randrange(n)
     capn = 40 if cap == "large" else cap
     c = {"kind": "pomdp_run", "mdp": m, "obs": obs, "nO": nO, "ctrl": ctrl, "s0": s0, "ag0": ag0, "cap": cap,
          "stream": gen_stream(rng, 3 * capn + 3, True), "gstream": gen_stream(rng, 4, True)}
@@ -438,7 +455,9 @@ def gen_pomdp_run(rng, tier, probe=False):
     c["plabels"] = plabels
     if rng.random() < .3:
         cap2 = rng.choice([0, 1, 2, 5])
-        if kind in ("table", "fsc"):
+        if kind == "belief":
+            ag2 = rng.choice([None, "prior", [str(p) for p in split(rng, n, 8)]])
+        elif kind in ("table", "fsc"):
             ag2 = None if rng.random() < .5 else rng.randrange(nN)
         else:
             ag2 = None if rng.random() < .5 else vec(nN)
@@ -726,6 +745,21 @@ def run(ctx):
             cases.append(c2)
             impl.append(res["second"])
 
+    # value-based (belief) policies: the model runs the roll-out loop with agent state = position in the run and the
+    # action distributions the policy itself presented (UniformDistribution over its arg-max actions); what the policy's
+    # own functions say about its beliefs is checked on the policy object by the runner (belief_checks)
+    for i, (case, res) in enumerate(zip(cases, impl)):
+        if case["kind"] == "pomdp_run" and case["ctrl"]["kind"] == "belief" and isinstance(res, dict) and "supports" in res:
+            nA, nO_, T = case["mdp"]["nA"], case["nO"], len(res["supports"])
+            c2 = dict(case)
+            c2["ctrl"] = {"kind": "table", "init": 0, "belief": case["ctrl"],
+                          "act": [{"t": "unif", "items": sup} for sup in res["supports"]] + [{"t": "det", "x": 0}],
+                          "next": [[[t + 1] * nO_ for _ in range(nA)] for t in range(T + 1)]}
+            c2["belief_ag0"] = case["ag0"]
+            c2["ag0"] = None
+            c2["_parent"] = case.get("_parent", case)
+            cases[i] = c2
+
     def public(case):
         return case.get("_parent", case)
 
@@ -930,6 +964,23 @@ def run(ctx):
             clause = pomdp_clauses(case, res["steps"], res["final"], cap_int_of(case))
             if clause is None and not res["final_rest_none"]:
                 clause = "final step carries more than state and agent state"
+            if "belief_checks" in res:
+                bc = res["belief_checks"]
+                if clause is None and not bc["first_ag_ok"]:
+                    clause = "initial agent state is not the policy's"
+                if clause is None and not all(bc["act_pos"]):
+                    clause = "action with zero policy probability"
+                if clause is None and not (all(bc["nag_ok"]) and all(bc["chain_ok"])):
+                    clause = "agent state does not follow the policy's update"
+                feats["belief_policy"] = feats.get("belief_policy", 0) + 1
+                b0 = case.get("belief_ag0")
+                if case["s0"] is None and isinstance(b0, list):
+                    feats["belief_given_start_sampled"] = feats.get("belief_given_start_sampled", 0) + 1
+                    prior = {s_ for s_, p_ in case["mdp"]["init"] if F(p_) > 0}
+                    if any(F(x) > 0 and j not in prior for j, x in enumerate(b0)):
+                        feats["belief_support_beyond_prior_start_sampled"] = feats.get("belief_support_beyond_prior_start_sampled", 0) + 1
+                if b0 == "prior":
+                    feats["belief_prior_passed_explicitly"] = feats.get("belief_prior_passed_explicitly", 0) + 1
             if "evaluate_on" in res:
                 feats["pomdp_evaluate_on_not_implemented"] = feats.get("pomdp_evaluate_on_not_implemented", 0) + (res["evaluate_on"] == "NotImplementedError")
             if "_parent" in case:
@@ -971,7 +1022,7 @@ def run(ctx):
             if clause or ms != steps or mf != final or mdraws != res["rng"]["draws"] or mgdraws != res["global"]["draws"] \
                     or res["rng"]["draws_outside_requests"]:
                 mismatch(case, res, "trajectory", v, clause)
-            ck = case["ctrl"]["kind"]
+            ck = "belief_" + case["ctrl"]["belief"]["variant"] if "belief" in case["ctrl"] else case["ctrl"]["kind"]
             feats["table_ctrl" if ck == "table" else ck] = feats.get("table_ctrl" if ck == "table" else ck, 0) + 1
             if ck == "fsc":
                 f = "fsc_%dd" % case["ctrl"]["dim"]
@@ -1042,6 +1093,10 @@ def run(ctx):
                 "{0,1,2,3,5,8,large=2^30,default}; streams of odd/2^21 values plus exact k/8 ties (dyadic cases) and extremes; "
                 "evaluate_on with n in {1,2,3,5,8}, one third deterministic policy on deterministic MDP; POMDPs = such MDPs with all "
                 "actions everywhere + observation distributions, policies = table controller (harness subclass of POMDPPolicy), "
+                "value-based policies with Belief agent states (myopic ValueBasedTabularPOMDPPolicy subclass, msdm AlphaVectorPolicy; "
+                "initial_agentstate absent / the prior passed explicitly / a full-support belief reaching states of initial probability 0, "
+                "start state mostly sampled; mirrored with agent state = position in the run and the action distributions the policy "
+                "presented, the policy's own action_dist/next_agentstate checked on the object), "
                 "msdm StochasticFiniteStateController and msdm FiniteStateController (deterministic; 2-d and 3-d observation "
                 "strategies indexed by observation-list position, action strategy as list/tuple of action labels incl. falsy ones, "
                 "initial_state given, initial_agentstate given or not); POMDP action/observation labels str/tuple/float/int/bool in "
